@@ -26,6 +26,7 @@ BIN = {
     ("plain", "release"): os.path.join(REPLAY_DIR, "target/plain/release/verif-replay"),
     ("sep", "debug"): os.path.join(REPLAY_DIR, "target/sep/debug/verif-replay"),
     ("sep", "release"): os.path.join(REPLAY_DIR, "target/sep/release/verif-replay"),
+    ("nightly", "release"): os.path.join(REPLAY_DIR, "target/nightly/release/verif-replay"),
 }
 SINGLE_RUN = {"C01", "C02", "C03", "C04", "C05", "C06", "C07", "C08", "C09", "C10", "C11"}
 _built = [False]
@@ -207,13 +208,15 @@ def _violates_single(pid, results_line, cfg_kind):
     return None
 
 
-def _strip_dump(lines, drop_sep=False):
+def _strip_dump(lines, drop_sep=False, bulk=None):
     """canonical comparison form of a dump: tokens (type, channel, offsets, lines, payload), errors, literal buffer"""
     toks, errs, lit = [], [], None
     for ln in lines:
         if ln.startswith("T "):
             f = ln.split(" ")
             toks.append(f[2:])
+        elif ln.startswith("B ") and not drop_sep and bulk is not None:
+            bulk.append(ln.split(" ")[1:])
         elif ln.startswith("E "):
             errs.append(ln.split(" ")[1:])
         elif ln.startswith("L "):
@@ -265,14 +268,17 @@ def differential(pid, inputs):
     if pid == "C19":
         a = _run_many(BIN[("plain", "debug")], ["dumpm"], d)
         b = _run_many(BIN[("plain", "release")], ["dumpm"], d)
+        c = _run_many(BIN[("nightly", "release")], ["dumpm"], d) if os.path.exists(BIN[("nightly", "release")]) else None
         for fn in sorted(idx):
             ra, rb = a.get(fn, ["?"]), b.get(fn, ["?"])
             if ra[0].startswith("PANIC") or rb[0].startswith("PANIC") or ra[0].startswith("TIMEOUT") or rb[0].startswith("TIMEOUT"):
                 if ra[0].split(" ")[0] != rb[0].split(" ")[0]:
                     return idx[fn], f"debug build: {ra[0][:80]} / release build: {rb[0][:80]}"
                 continue
-            if _strip_dump(ra) != _strip_dump(rb):
+            if ra[1:] != rb[1:]:
                 return idx[fn], "debug and release builds return different results"
+            if c is not None and c.get(fn, ["?"])[1:] != rb[1:]:
+                return idx[fn], "stable and nightly toolchain builds return different results"
     elif pid == "C18":
         a = _run_many(BIN[("plain", "debug")], ["dumpm"], d)
         b = _run_many(BIN[("sep", "debug")], ["dumpm"], d)
@@ -307,6 +313,11 @@ def differential(pid, inputs):
                 exp_e = [[e[0], str(int(e[1]) + 3), str(int(e[2]) + 1)] + e[3:] for e in ea]
                 if exp_t != tb or exp_e != eb or la != lb:
                     return i2[fn], "a leading byte-order mark changes more than the offsets (+3 bytes, +1 char)"
+                ba = [ln.split(" ") for ln in ra if ln.startswith("B ")]
+                bb = [ln.split(" ") for ln in rb if ln.startswith("B ")]
+                exp_b = [x[:4] + [str(int(x[4]) + 1), str(int(x[5]) + 1)] + x[6:] for x in ba]
+                if exp_b != bb:
+                    return i2[fn], "a leading byte-order mark changes lines/columns in the bulk resolved-token view"
     elif pid == "C16":
         variants = []
         for s in inputs:
@@ -335,7 +346,7 @@ def differential(pid, inputs):
                 if canon(ta) != canon(tb) or ea != eb:
                     return i2[fn], f"tokenization depends on ASCII letter case (variant of {i1[fn]!r})"
     elif pid == "C15":
-        closers = ["x=1;\n", "%let a=1;\n", "data a; set b; run;\n", "%put done;\n", "/* c */ y;\n", "%macro m; %mend;\n"]
+        closers = ["x=1;", "%let a=1;", "data a;\nset b; run;", "%put done;", "/* c */\n y;", "%macro m; %mend;", "x='a''b';", "data;cards;\n1\n;"]
         pairs = [(a, b) for a in closers for b in inputs[:400]]
         dA, iA = _write_dir("diff-C15a", closers)
         dB, iB = _write_dir("diff-C15b", inputs[:400])
@@ -364,21 +375,138 @@ def differential(pid, inputs):
                     # string payloads shift by the literal length of A
                     la_len = len(json.loads(la)) if la else 0
 
+                    last_col = len(a) - (a.rfind("\n") + 1)
+
+                    def shc(line, col):
+                        # positions on B's first line continue A's last line
+                        return "%d:%d" % (int(line) + al, int(col) + (last_col if int(line) == 1 else 0))
+
                     def sh(t):
                         s_l, s_c = t[6].split(":")
                         e_l, e_c = t[7].split(":")
-                        # columns only shift on A's last line; closers end in '\n' so they do not shift
                         pl = t[8]
                         if pl.startswith("S"):
                             x, y = pl[1:].split("-")
                             pl = "S%d-%d" % (int(x) + la_len, int(y) + la_len)
                         return [t[0], t[1], str(int(t[2]) + ab), str(int(t[3]) + ab), str(int(t[4]) + ac), str(int(t[5]) + ac),
-                                "%d:%s" % (int(s_l) + al, s_c), "%d:%s" % (int(e_l) + al, e_c), pl]
+                                shc(s_l, s_c), shc(e_l, e_c), pl]
                     exp_t = ta[:-1] + [sh(t) for t in tb]
-                    exp_e = ea + [[e[0], str(int(e[1]) + ab), str(int(e[2]) + ac), "%d:%s" % (int(e[3].split(":")[0]) + al, e[3].split(":")[1]),
+                    exp_e = ea + [[e[0], str(int(e[1]) + ab), str(int(e[2]) + ac), shc(*e[3].split(":")),
                                    str(int(e[4]) + na if int(e[4]) >= 0 else (na - 1 if na > 0 else -1))] for e in eb]
                     if exp_t != tab or exp_e != eab:
                         return a + b, "result for A+B is not result(A) followed by shifted result(B)"
+    return None
+
+
+DELIM_TYPES = {"LPAREN", "RPAREN", "COMMA", "ASSIGN", "SEMI", "PLUS", "MINUS", "STAR", "STAR2", "FSLASH", "LT", "LE", "GT", "GE", "NE", "NOT",
+               "PIPE", "HASH", "KwLT", "KwLE", "KwEQ", "KwIN", "KwNE", "KwGT", "KwGE", "KwAND", "KwOR", "KwNOT"}
+
+
+def c13_suite():
+    """[(text, expected delimiter spans, expected integer spans)] from the marked templates."""
+    out = []
+    p = os.path.join(REPLAY_DIR, "c13_templates.txt")
+    if not os.path.exists(p):
+        p = os.path.join(kani.VERIF, "replay", "c13_templates.txt")
+    for ln in open(p, encoding="utf-8"):
+        ln = ln.rstrip("\n")
+        if not ln or ln.startswith("#"):
+            continue
+        ln = ln.replace("\\n", "\n")
+        text, delims, ints = "", set(), set()
+        i = 0
+        while i < len(ln):
+            c = ln[i]
+            if c in "\u27e6\u27ea":
+                close = "\u27e7" if c == "\u27e6" else "\u27eb"
+                j = ln.index(close, i)
+                inner = ln[i + 1:j]
+                start = len(text.encode("utf-8"))
+                text += inner
+                (delims if c == "\u27e6" else ints).add((start, len(text.encode("utf-8"))))
+                i = j + 1
+            else:
+                text += c
+                i += 1
+        out.append((text, delims, ints))
+    return out
+
+
+def c13_check():
+    suite = c13_suite()
+    d, idx = _write_dir("c13", [t for t, _, _ in suite])
+    for kind in (("plain", "debug"), ("plain", "release"), ("sep", "debug")):
+        res = _run_many(BIN[kind], ["dumpm"], d)
+        for i, (text, delims, ints) in enumerate(suite):
+            r = res.get("%06d.sas" % i, ["?"])
+            if not r[0].startswith("DUMP"):
+                continue  # a panic is C01's business
+            got_d, got_i = set(), set()
+            for ln in r:
+                if ln.startswith("T "):
+                    f = ln.split(" ")
+                    span = (int(f[4]), int(f[5]))
+                    if f[2] in DELIM_TYPES and span[0] != span[1] and f[3] == "DEFAULT":
+                        got_d.add(span)
+                    if f[2] == "IntegerLiteral":
+                        got_i.add(span)
+            if got_d != delims:
+                extra = sorted(got_d - delims)
+                missing = sorted(delims - got_d)
+                return text, f"[{kind[0]}/{kind[1]}] delimiter/operator tokens differ from the generator's positions: unexpected {extra[:3]}, missing {missing[:3]}"
+            if got_i != ints:
+                return text, f"[{kind[0]}/{kind[1]}] integer operand tokens differ from the generator's positions: got {sorted(got_i)[:4]}, expected {sorted(ints)[:4]}"
+    return None
+
+
+ARG_BUILTINS = ["cmpres", "compstor", "datatyp", "eval", "index", "left", "length", "lowcase", "scan", "substr", "symexist", "symglobl", "symlocal",
+                "sysevalf", "sysfunc", "sysget", "sysmacexec", "sysmacexist", "sysmexecname", "sysprod", "trim", "unquote", "upcase", "verify",
+                "kcmpres", "kindex", "kleft", "klength", "klowcase", "kscan", "ksubstr", "ktrim", "kupcase", "kverify", "validchs",
+                "qcmpres", "qleft", "qlowcase", "qscan", "qsubstr", "qtrim", "qsysfunc", "qupcase",
+                "qkcmpres", "qkleft", "qklowcase", "qkscan", "qksubstr", "qktrim", "qkupcase",
+                "bquote", "nrbquote", "nrquote", "quote", "superq", "str", "nrstr"]
+KIND_TOK = {"MissingExpectedRParen": "RPAREN", "MissingExpectedAssign": "ASSIGN", "MissingExpectedLParen": "LPAREN",
+            "MissingExpectedComma": "COMMA", "MissingExpectedFSlash": "FSLASH", "MissingExpectedSemiOrEOF": "SEMI"}
+
+
+def c14_suite():
+    """(text with one mandatory delimiter deleted, expected error kind, expected byte offset)"""
+    out = []
+    for gap in (" ", "\n", " /*c*/ "):
+        out.append((f"%let a{gap}1;", "MissingExpectedAssign", len(f"%let a{gap}")))
+        out.append((f"%do i{gap}1 %to 3; %end;", "MissingExpectedAssign", len(f"%do i{gap}")))
+        out.append((f"%copy m{gap}source;", "MissingExpectedFSlash", len(f"%copy m{gap}")))
+        out.append((f"%sysmacdelete m{gap}nowarn;", "MissingExpectedFSlash", len(f"%sysmacdelete m{gap}")))
+        for kw in ("%end", "%return"):
+            out.append((f"{kw}{gap}x = 1;", "MissingExpectedSemiOrEOF", len(f"{kw}{gap}")))
+        for kw in ("%while", "%until"):
+            out.append((f"%do {kw}(&i<3){gap}x;", "MissingExpectedSemiOrEOF", len(f"%do {kw}(&i<3){gap}")))
+        for b in ARG_BUILTINS:
+            out.append((f"%{b}{gap}a)", "MissingExpectedLParen", len(f"%{b}{gap}")))
+    for b in ("scan", "qscan", "kscan", "qkscan", "substr", "qsubstr", "ksubstr", "qksubstr"):
+        out.append((f"%{b}(&a. 1)", "MissingExpectedComma", len(f"%{b}(&a. 1")))
+        out.append((f"%let x=%{b.upper()}( a b /*c*/ 2 );", "MissingExpectedComma", len(f"%let x=%{b.upper()}( a b /*c*/ 2 ")))
+    for t in ("%eval(1", "%eval((1+2", "%let x=%eval((1+2", "%sysfunc(abs((1", "%upcase((a", "%str((a", "%nrstr(a(b(c", "%m(a", "%scan(a,1", "%if (a", "%do i=(1", "%do i=1 %to (3", "%eval((1 "):
+        out.append((t, "MissingExpectedRParen", len(t.encode())))
+    return out
+
+
+def c14_check():
+    suite = c14_suite()
+    d, idx = _write_dir("c14", [t for t, _, _ in suite])
+    for kind in (("plain", "debug"), ("plain", "release")):
+        res = _run_many(BIN[kind], ["dumpm"], d)
+        for i, (text, ek, off) in enumerate(suite):
+            r = res.get("%06d.sas" % i, ["?"])
+            if not r[0].startswith("DUMP"):
+                continue
+            errs = [ln.split(" ") for ln in r if ln.startswith("E ")]
+            toks = [ln.split(" ") for ln in r if ln.startswith("T ")]
+            if not any(e[1] == ek and int(e[2]) == off for e in errs):
+                return text, f"[{kind[0]}/{kind[1]}] omitted delimiter not diagnosed: expected {ek} at byte {off}, errors: {[(e[1], e[2]) for e in errs][:4]}"
+            tt = KIND_TOK[ek]
+            if not any(t[2] == tt and int(t[4]) == off and int(t[5]) == off for t in toks):
+                return text, f"[{kind[0]}/{kind[1]}] no zero-width {tt} recovery token at byte {off} where the delimiter was expected"
     return None
 
 
@@ -403,6 +531,10 @@ def search(pid, inputs, cfg="debug"):
                 if v:
                     return idx[fn], f"[{k[0]}/{k[1]}] {v[:300]}"
         return None
+    if pid == "C13":
+        return c13_check()
+    if pid == "C14":
+        return c14_check()
     return differential(pid, inputs)
 
 
